@@ -20,7 +20,7 @@ Definition errno_eqb (a b : errno) : bool :=
   match a, b with
   | ENOENT, ENOENT | EEXIST, EEXIST | ENOTDIR, ENOTDIR | EISDIR, EISDIR
   | EBADF, EBADF | EINVAL, EINVAL | ESPIPE, ESPIPE | EPIPE, EPIPE
-  | EMFILE, EMFILE | EACCES, EACCES | ELOOP, ELOOP | EOTHER, EOTHER => true
+  | EMFILE, EMFILE | EACCES, EACCES | ELOOP, ELOOP | ESRCH, ESRCH | EOTHER, EOTHER => true
   | _, _ => false
   end.
 
@@ -42,6 +42,13 @@ Definition disp_eqb (a b : disp) : bool :=
   | _, _ => false
   end.
 
+Definition cstat_eqb (a b : cstat) : bool :=
+  match a, b with
+  | CExited, CExited => true
+  | CSignaled x, CSignaled y => N.eqb x y
+  | _, _ => false
+  end.
+
 Definition res_eqb (a b : res) : bool :=
   match a, b with
   | RFd x, RFd y => N.eqb x y
@@ -59,6 +66,8 @@ Definition res_eqb (a b : res) : bool :=
   | RErr x, RErr y => errno_eqb x y
   | RDisp x, RDisp y => disp_eqb x y
   | RSigs x, RSigs y => str_eqb x y
+  | RSkip, RSkip => true
+  | RChild x, RChild y => cstat_eqb x y
   | ROut, ROut => true
   | RHang, RHang => true
   | RPanic, RPanic => true
@@ -98,6 +107,8 @@ Definition op_class (o : op) : N :=
   | OReaddir _ => 7
   | OFork | OExit => 8
   | OSigaction _ _ | OGetSigaction _ | ORaise _ | OCaught | OSigmask _ _ => 12
+  | OSetrlimit _ => 1
+  | OSetpgid0 | OKill _ _ => 12
   end.
 
 Definition clause_tree : N := 9.
